@@ -293,7 +293,6 @@ func init() {
 		Assumptions: commonAssumptions})
 }
 
-
 // certChainGates: the one function that turns a presented certificate chain into an authenticated identity succeeds only
 // past every check (shared by C03 and by the properties that speak of a link's *authenticated* remote peer: C04, C05).
 func certChainGates(c *an.Check) *ssa.Function {
